@@ -40,6 +40,7 @@ def gen_records(
     z_dtype: str = "f8",
     edge_frac: float = 0.12,
     coord_dtype: str = "f8",
+    w_kind: str = "dyadic",
 ) -> dict[str, np.ndarray]:
     """Columns ``ra``/``dec`` in degrees and optional ``w``/``z``.
 
@@ -75,6 +76,9 @@ def gen_records(
             w = ((wq - 1) % 4 + 1).astype(w_dtype)
         else:
             w = (wq / 4.0).astype(w_dtype)
+            if w_kind == "float":
+                # not exactly representable: sums depend on the order of summation
+                w = (w * 1.1 + 0.013).astype(w_dtype)
         out["w"] = w[:n].copy()
     if has_z:
         if zedges is None:
